@@ -40,6 +40,18 @@ theorem referrers_linearizable {σ : Sig} [DecidableEq σ.R] (L : Ideal σ) (req
   have := rw_linearizable L (reqs.map (Req.prog .rw)) hpre s0 sched fuel hdone
   simpa using this
 
+/-- the same for the model the correspondence runs (`Conc.upd`: the `Upd` registry model with `Upd.addDesc`, `Upd.rmDesc`)
+    with its blob store idealized (`Conc.updIdeal`): the hypotheses of the theorem are met by it -/
+theorem upd_model_linearizable (reqs : List (Req updIdeal)) (hadm : ∀ q ∈ reqs, q.admitted)
+    (s0 : updIdeal.S) (sched : List Nat) (fuel : Nat)
+    (hdone : (drain fuel (exec sched (Cfg.init s0 ((reqs.map (Req.prog .rw)).map fun p => [p])))).allDone = true) :
+    ∃ order : List Nat, order.Nodup ∧ (∀ t, t ∈ order ↔ t < reqs.length) ∧
+      (∀ r : String, ((drain fuel (exec sched (Cfg.init s0 ((reqs.map (Req.prog .rw)).map fun p => [p])))).s.u.repo r).index =
+        ((spec (reqs.map (Req.prog .rw)) s0 order).1.u.repo r).index) ∧
+      ∀ t, t < reqs.length → ∃ a, (t, a) ∈ (spec (reqs.map (Req.prog .rw)) s0 order).2 ∧
+        ((drain fuel (exec sched (Cfg.init s0 ((reqs.map (Req.prog .rw)).map fun p => [p])))).thread t).answers = [a] :=
+  referrers_linearizable updIdealLaws reqs hadm s0 sched fuel hdone
+
 /-- the requests with one index action: pushes without a subject, deletes that update no referrers response, reads -/
 def oneIndexAction {σ : Sig} : Req σ → Prop
   | .put q => q.refAdd = none
